@@ -4,6 +4,7 @@ import (
 	"bytes"
 	"runtime"
 	"strconv"
+	"sync/atomic"
 	"syscall"
 	"time"
 )
@@ -27,6 +28,12 @@ type Snapshot struct {
 }
 
 var snapBuf = make([]byte, 1<<20)
+
+// Progress is bumped by the harness whenever the program under test does something
+// observable (passes a hook site, active or not; evaluates a point through a wrapper;
+// hands a batch to a tap). The livelock detector only speaks of a livelock when the
+// counter stands still for the whole observation window.
+var Progress atomic.Uint64
 
 // stable wait states: a goroutine in one of these cannot become runnable
 // unless another goroutine acts (there are no timers, network pollers or
@@ -149,6 +156,9 @@ func (s *Sim) waitQuiescent() (Snapshot, bool) {
 	t0 := time.Now()
 	spins := 0
 	nextStallCheck := t0.Add(s.StallAfter)
+	var spinArmed bool
+	var spinProgress uint64
+	var spinCPU0 time.Duration
 	for {
 		before := s.tableLen()
 		snap := s.takeSnapshot(false)
@@ -179,8 +189,23 @@ func (s *Sim) waitQuiescent() (Snapshot, bool) {
 			// the program under test spinning? (checked again every StallAfter)
 			nextStallCheck = time.Now().Add(s.StallAfter)
 			if snap, spinning := s.detectSpin(time.Since(t0)); spinning {
-				snap.Why = "livelock"
-				return snap, false
+				// A long computation inside one library call looks the same from outside.
+				// What tells them apart is how much processor time goes by without any
+				// progress (processor time, not wall-clock time: a loaded machine
+				// stretches the latter only): the verdict is given once the process has
+				// burned SpinCPU of it in this state.
+				cpuNow := processCPU()
+				prog := Progress.Load()
+				if !spinArmed || prog != spinProgress {
+					spinArmed, spinProgress, spinCPU0 = true, prog, cpuNow
+				}
+				if s.SpinCPU <= 0 || cpuNow-spinCPU0 >= s.SpinCPU {
+					snap.Why = "livelock"
+					return snap, false
+				}
+				nextStallCheck = time.Now().Add(3 * time.Second)
+			} else {
+				spinArmed = false
 			}
 		}
 		if spins%256 == 0 && !s.Deadline.IsZero() && time.Now().After(s.Deadline) {
@@ -239,6 +264,7 @@ func creatorChain() []uint64 {
 func (s *Sim) detectSpin(stalled time.Duration) (Snapshot, bool) {
 	const samples = 10
 	const gap = 500 * time.Millisecond
+	p0 := Progress.Load()
 	var ru0, ru1 syscall.Rusage
 	syscall.Getrusage(syscall.RUSAGE_SELF, &ru0)
 	w0 := time.Now()
@@ -297,6 +323,11 @@ func (s *Sim) detectSpin(stalled time.Duration) (Snapshot, bool) {
 		}
 		time.Sleep(gap)
 	}
+	if Progress.Load() != p0 {
+		// the program under test passed hook sites, evaluated points or delivered output
+		// during the window: a long computation, not a loop that goes nowhere
+		return last, false
+	}
 	syscall.Getrusage(syscall.RUSAGE_SELF, &ru1)
 	cpu := time.Duration(ru1.Utime.Nano()-ru0.Utime.Nano()) + time.Duration(ru1.Stime.Nano()-ru0.Stime.Nano())
 	wall := time.Since(w0)
@@ -319,6 +350,13 @@ func (s *Sim) detectSpin(stalled time.Duration) (Snapshot, bool) {
 		}
 	}
 	return last, false
+}
+
+// processCPU: user+system processor time of this process so far.
+func processCPU() time.Duration {
+	var ru syscall.Rusage
+	syscall.Getrusage(syscall.RUSAGE_SELF, &ru)
+	return time.Duration(ru.Utime.Nano()) + time.Duration(ru.Stime.Nano())
 }
 
 func hasPrefix(s, p string) bool { return len(s) >= len(p) && s[:len(p)] == p }
